@@ -225,6 +225,14 @@ class InstGen:
                     names = {"^[a-z]+$": ["abc", "k"], "^x-": ["x-one", "x-2"]}.get(pat, [])
                     for nm in names[: self.r.randrange(0, 3)]:
                         out[nm] = self.inst(ps, d + 1, minimal)
+            elif isinstance(s.get("propertyNames"), dict) and not minimal and not pp:
+                pn = s["propertyNames"]
+                from .schemagen import PATTERNS
+                names = next((good for pat, good, bad in PATTERNS if pat == pn.get("pattern")), ["k0", "ab", "zeta"])
+                names = [n_ for n_ in names if pn.get("minLength", 0) <= len(n_) <= pn.get("maxLength", 99)]
+                for nm in names[: self.r.randrange(0, 3)]:
+                    if nm not in props:
+                        out[nm] = self.inst(ap if isinstance(ap, dict) else True, d + 1, minimal)
             elif isinstance(ap, dict) and not minimal and not pp:
                 for i in range(self.r.randrange(0, 3)):
                     nm = self.pick(["extra", "k%d" % i, "zz top", "ünï"])
